@@ -12,6 +12,7 @@ package providers
 //@   ensures [C10] body_decoded: result == nil && response != nil ==> called(@Unmarshal#2) && @Unmarshal#2 == nil
 //@   ensures [C10] error_status_is_error: answered && at(@Do#1, @Do#1.0.StatusCode) != 200 ==> result != nil
 //@   ensures [C10] transport_error_is_error: called(@Do#1) && @Do#1.1 != nil ==> result != nil
+//@   ensures [C19] revoked_only_when_the_provider_says_so: result == ErrTokenRevoked ==> called(@Do#1) && @Do#1.1 == nil && at(@Do#1, @Do#1.0.StatusCode) == 400 && called(@Unmarshal#1) && @Unmarshal#1 == nil && local("response", 2).ErrorDescription == "Token expired or revoked"
 
 //@ func jwtDecodeSegment(seg string) ([]byte, error)
 //@   modifies nothing
@@ -49,6 +50,9 @@ package providers
 //@   ensures [C10] body_decoded: result == nil && response != nil ==> called(@Unmarshal#2) && @Unmarshal#2 == nil
 //@   ensures [C10] error_status_is_error: answered && at(@Do#1, @Do#1.0.StatusCode) != 200 ==> result != nil
 //@   ensures [C10] transport_error_is_error: called(@Do#1) && @Do#1.1 != nil ==> result != nil
+// "already revoked" is only what the provider says is already revoked; local("response") is the error-body struct of
+// the 400 case, which shadows the parameter of the same name
+//@   ensures [C19] revoked_only_when_the_provider_says_so: result == ErrTokenRevoked ==> called(@Do#1) && @Do#1.1 == nil && at(@Do#1, @Do#1.0.StatusCode) == 400 && called(@Unmarshal#1) && @Unmarshal#1 == nil && called(@ToLower#1) && arg(@ToLower#1, 0) == before(@ToLower#1, local("response", 2).ErrorDescription) && called(@Contains#1) && @Contains#1 && arg(@Contains#1, 0) == @ToLower#1 && arg(@Contains#1, 1) == "token is invalid or expired"
 
 // ---- Amazon Cognito -----------------------------------------------------------------------------------
 //@ func (p *AmazonCognitoProvider) amazonCognitoRequest(method string, endpoint string, params url.Values, tags []string, header http.Header, basicAuth bool, response interface{}) error
@@ -57,6 +61,7 @@ package providers
 //@   ensures [C10] ok_needs_200: result == nil ==> answered && at(@Do#1, @Do#1.0.StatusCode) == 200
 //@   ensures [C10] error_status_is_error: answered && at(@Do#1, @Do#1.0.StatusCode) != 200 ==> result != nil
 //@   ensures [C10] transport_error_is_error: called(@Do#1) && @Do#1.1 != nil ==> result != nil
+//@   ensures [C19] revoked_only_when_the_provider_says_so: result == ErrTokenRevoked ==> called(@Do#1) && @Do#1.1 == nil && at(@Do#1, @Do#1.0.StatusCode) == 400 && called(@Unmarshal#1) && @Unmarshal#1 == nil && local("response", 2).ErrorDescription == "Token expired or revoked"
 
 //@ func (p *AmazonCognitoProvider) verifyEmailWithAccessToken(accessToken string) (string, error)
 //@   modifies clock
